@@ -139,9 +139,61 @@ func prop(c harness.Case) harness.Result {
 	return res
 }
 
+// genStructured: a paragraph with inline raw HTML (comments, declarations,
+// tags) followed, in the same container, by an HTML block with rejected tags;
+// state kept by the renderer between an inline construct and a following block
+// shows only in this shape.
+func genStructured(t *rapid.T) []byte {
+	inl := []string{"<!-- c -->", "<b>", "</b>", "<?x ?>", "<!DOCTYPE x>", "<![CDATA[x]]>", "<STRONG>", "</STRONG>", "<a href=\">\">", "<!--->", "text", "`<script>`", "<span\nclass=x>", "<!-- a\nb -->"}
+	starts := []string{"<div>", "<DIV>", "<pre>", "<script>", "<!--", "<?", "<table>", "<style>", "</div>", "<p>"}
+	body := []string{"<script>x</script>", "<SCRIPT>", "<style>", "<title>t", "<xmp>", "<iframe src=x>", "<textarea>", "x <plaintext>", "-->", "?>", "</pre>", "</script>", "<noembed>", "<b>ok</b>", "<STYLE>", "<TITLE>"}
+	prefix, cont := "", ""
+	switch rapid.IntRange(0, 4).Draw(t, "cont") {
+	case 1:
+		prefix, cont = "> ", "> "
+	case 2:
+		prefix, cont = "- ", "  "
+	case 3:
+		prefix, cont = "> - ", ">   "
+	case 4:
+		prefix, cont = "1. ", "   "
+	}
+	var lines []string
+	np := rapid.IntRange(0, 3).Draw(t, "nparts")
+	para := "a"
+	for i := 0; i < np; i++ {
+		para += " " + inl[rapid.IntRange(0, len(inl)-1).Draw(t, "inl")]
+	}
+	if rapid.Bool().Draw(t, "tail") {
+		para += " b"
+	}
+	lines = append(lines, strings.Split(para, "\n")...)
+	if rapid.Bool().Draw(t, "blank") {
+		lines = append(lines, "")
+	}
+	lines = append(lines, starts[rapid.IntRange(0, len(starts)-1).Draw(t, "start")])
+	nb := rapid.IntRange(1, 3).Draw(t, "nbody")
+	for i := 0; i < nb; i++ {
+		lines = append(lines, body[rapid.IntRange(0, len(body)-1).Draw(t, "body")])
+	}
+	var sb strings.Builder
+	for i, l := range lines {
+		if i == 0 {
+			sb.WriteString(prefix)
+		} else {
+			sb.WriteString(cont)
+		}
+		sb.WriteString(l)
+		sb.WriteString("\n")
+	}
+	return []byte(sb.String())
+}
+
 func genCase(t *rapid.T) harness.Case {
 	var c harness.Case
-	switch k := rapid.IntRange(0, 9).Draw(t, "g"); {
+	switch k := rapid.IntRange(0, 11).Draw(t, "g"); {
+	case k >= 10:
+		c.In = genStructured(t)
 	case k < 6:
 		c.In = gen.HTMLSoup().Draw(t, "html")
 	case k < 8:
